@@ -4,7 +4,8 @@
 //! files of the "status" namespace), the operations the harness saw the step perform - with the outcome of
 //! every exchange taken from sources other than the status (result of the call, what the parent CA and the
 //! publication server hold, the parent's command log) -, the status after, the result of the call, the files the
-//! publication server holds per publisher and the `get_ca_issues` view.
+//! publication server holds per publisher, the `get_ca_issues` view of every CA, the issues view over all CAs and the text
+//! reports of both.
 use std::collections::{BTreeMap, BTreeSet};
 use std::sync::Mutex;
 
@@ -115,6 +116,12 @@ fn parent_term(it: &mut Intern, v: &Value) -> String {
 }
 fn child_term(it: &mut Intern, v: &Value) -> String {
     format!("(mkC {} {} {})", last_term(it, &v["last_exchange"]), !v["last_success"].is_null(), !v["suspended"].is_null())
+}
+/// `CertAuthIssues` JSON -> (repository issue label, [(parent, label)])
+fn issues_term(it: &mut Intern, v: &Value) -> String {
+    let ri = match v["repo_issue"].get("label").and_then(|x| x.as_str()) { Some(lab) => format!("(Some {})", it.label(lab)), None => "None".into() };
+    let pis: Vec<String> = v["parent_issues"].as_array().map(|a| a.iter().map(|p| format!("({}, {})", qs(p["parent"].as_str().unwrap_or("?")), it.label(p["issue"]["label"].as_str().unwrap_or("?")))).collect()).unwrap_or_default();
+    format!("({ri}, {})", coq_list(&pis))
 }
 fn map_term(it: &mut Intern, m: &Value, f: fn(&mut Intern, &Value) -> String) -> String {
     let mut items = Vec::new();
@@ -294,7 +301,7 @@ fn assign(groups: &[usize], log: &mut std::collections::VecDeque<bool>, fail_lab
 
 // ---------------------------------------------------------------- one history
 
-struct Out { w: CaseWriter, jsonl: std::fs::File, op_hist: BTreeMap<String, u64>, res_hist: BTreeMap<String, u64>, run_hist: BTreeMap<String, u64>,
+struct Out { w: CaseWriter, jsonl: std::fs::File, op_hist: BTreeMap<String, u64>, res_hist: BTreeMap<String, u64>, run_hist: BTreeMap<String, u64>, issue_hist: BTreeMap<String, u64>,
              distinct: BTreeSet<String>, samples: Vec<Value>, impl_failures: Vec<Value>, nontrivial: u64 }
 
 struct Hist {
@@ -570,15 +577,51 @@ fn emit(h: &mut Hist, pre: &Obs, post: &Obs, so: StepOut, out: &Mutex<Out>, lost
     let res_t = match &so.res { Some(r) => format!("(Some {})", h.res_term(r)), None => "None".into() };
     let mut srv = Vec::new();
     for c in &h.cas { if let Ok(f) = server_files(h.sys(), c) { srv.push(format!("({}, {})", qs(c), files_term(&mut h.it, &f))); } }
+    // the issues view of every CA, its text report, and the view over all CAs built the way
+    // daemon/http/dispatch/bulk.rs::cas_issues builds it (the handler itself needs a hyper connection): every handle of
+    // `ca_handles()`, `get_ca_issues`, kept `if !issues.is_empty()`, in an `AllCertAuthIssues`; read back from its JSON
+    // (what the handler sends) and from its text report (what `krillc issues` prints)
     let mut issues = Vec::new();
+    let mut texts = Vec::new();
+    let mut issues_json = serde_json::Map::new();
+    let mut text_mismatch = Vec::new();
+    let mut states: Vec<&'static str> = Vec::new();
     for c in &post.existing {
         if let Ok(i) = h.sys().krill.ca_manager().get_ca_issues(&ca_handle(c)) {
             let v = serde_json::to_value(&i).unwrap();
-            let ri = match v["repo_issue"].get("label").and_then(|x| x.as_str()) { Some(lab) => format!("(Some {})", h.it.label(lab)), None => "None".into() };
-            let pis: Vec<String> = v["parent_issues"].as_array().map(|a| a.iter().map(|p| format!("({}, {})", qs(p["parent"].as_str().unwrap_or("?")), h.it.label(p["issue"]["label"].as_str().unwrap_or("?")))).collect()).unwrap_or_default();
-            issues.push(format!("({}, ({ri}, {}))", qs(c), coq_list(&pis)));
+            issues.push(format!("({}, {})", qs(c), issues_term(&mut h.it, &v)));
+            let text = i.to_string();
+            texts.push(format!("({}, {})", qs(c), text.contains("no issues found")));
+            let n_par = v["parent_issues"].as_array().map(|a| a.len()).unwrap_or(0);
+            if text.contains("Repository Issue:") != !v["repo_issue"].is_null() || text.matches("has issue:").count() != n_par {
+                text_mismatch.push(format!("text report of the issues of {c} does not list its issues: {text:?} for {v}"));
+            }
+            states.push(match (!v["repo_issue"].is_null(), n_par > 0) { (false, false) => "none", (true, false) => "repo-only", (false, true) => "parent-only", (true, true) => "both" });
+            issues_json.insert(c.clone(), v);
         }
     }
+    let (bulk, bulk_json, bulk_text_none) = {
+        let m = h.sys().krill.ca_manager();
+        let mut handles: Vec<String> = m.ca_handles().unwrap_or_default().iter().map(|x| x.to_string()).collect();
+        handles.sort();
+        let mut ex = post.existing.clone(); ex.sort();
+        if handles != ex { text_mismatch.push(format!("ca_handles() = {handles:?} but get_ca_status succeeds for {ex:?}")); }
+        let mut all = krill::api::ca::AllCertAuthIssues::default();
+        for c in &handles {
+            let ca = ca_handle(c);
+            if let Ok(i) = m.get_ca_issues(&ca) { if !i.is_empty() { all.cas.insert(ca, i); } }
+        }
+        let text = all.to_string();
+        let v: Value = serde_json::from_str(&serde_json::to_string(&all).unwrap()).unwrap();
+        let mut items = Vec::new();
+        if let Some(o) = v["cas"].as_object() {
+            for (c, iv) in o {
+                items.push(format!("({}, {})", qs(c), issues_term(&mut h.it, iv)));
+                if !text.contains(&format!("Found issue for CA '{c}':")) { text_mismatch.push(format!("text report of the issues of all CAs does not mention {c}: {text:?}")); }
+            }
+        }
+        (items, v, text.contains("no issues found"))
+    };
     // the narrower views must be projections of get_ca_status
     let mut view_mismatch = Vec::new();
     for c in &post.existing {
@@ -590,18 +633,22 @@ fn emit(h: &mut Hist, pre: &Obs, post: &Obs, so: StepOut, out: &Mutex<Out>, lost
     let pre_t = state_term(&mut h.it, pre);
     let post_t = state_term(&mut h.it, post);
     let cas_t = coq_list(&post.existing.iter().map(|c| qs(c)).collect::<Vec<_>>());
-    let term = format!("mkCase {pre_t} {} {post_t} {res_t} {cas_t} {} {}", coq_list(&so.ops.iter().map(|o| format!("({o})")).collect::<Vec<_>>()), coq_list(&srv), coq_list(&issues));
+    let term = format!("mkCase {pre_t} {} {post_t} {res_t} {cas_t} {} {} {} {} {}", coq_list(&so.ops.iter().map(|o| format!("({o})")).collect::<Vec<_>>()), coq_list(&srv), coq_list(&issues), coq_list(&bulk), coq_list(&texts), bulk_text_none);
     let mut class = so.class.clone();
     if so.kind == "restart" { class["status_entry_with_slash_handle"] = json!(lost_slash); }
     let mut o = out.lock().unwrap();
     let idx = o.w.total;
     for vm in view_mismatch { o.impl_failures.push(json!({"index": idx, "history": h.id, "class": {"view_mismatch": true}, "what": format!("{vm} is not the projection of get_ca_status")})); }
+    for tm in text_mismatch { o.impl_failures.push(json!({"index": idx, "history": h.id, "class": {"view_mismatch": true}, "what": tm})); }
+    for st in &states { *o.issue_hist.entry(st.to_string()).or_default() += 1; }
+    *o.issue_hist.entry(format!("listed-in-view-of-all-cas:{}", bulk.len())).or_default() += 1;
     *o.op_hist.entry(so.kind.clone()).or_default() += 1;
     if let Some(r) = &so.res { *o.res_hist.entry(match r { Ok(()) => "ok".to_string(), Err(e) => label(e) }).or_default() += 1; }
     let nontrivial = !so.ops.is_empty();
     if nontrivial { o.nontrivial += 1; o.distinct.insert(format!("{}|{}|{}", so.ops.join(";"), pre_t.len(), post_t)); }
     let rec = json!({"index": idx, "history": h.id, "step": so.desc, "ops": so.ops, "class": class,
         "result": so.res.as_ref().map(|r| match r { Ok(()) => "ok".to_string(), Err(e) => format!("{}: {}", label(e), e) }),
+        "issues_after": issues_json, "all_cas_issues_after": bulk_json["cas"], "all_cas_text_says_no_issues": bulk_text_none,
         "status_after": post.cache.iter().map(|(k, v)| (k.clone(), strip_times(v))).collect::<BTreeMap<_, _>>(),
         "status_files_after": post.store.iter().map(|(k, v)| (k.clone(), v.keys().cloned().collect::<Vec<_>>())).collect::<BTreeMap<_, _>>()});
     use std::io::Write;
@@ -642,6 +689,19 @@ fn run_history(args: &Args, id: u64, seed: u64, n_ops: u64, slash: bool, readd: 
         for (k, w) in [("sync", &b), ("sync", &c), ("sync", &b), ("restart", &a), ("link", &a), ("sync", &a), ("sync", &a), ("sync", &a),
                        ("sync", &b), ("sync", &b), ("sync", &c), ("sync", &c), ("repo", &a)] { script.push_back((k.to_string(), w.clone())); }
     };
+    // Every combination of failing exchanges of one leaf CA, and the recovery from each, with both issues views read
+    // after every step: only the parent fails (child removed at the parent), nothing fails, only the repository fails
+    // (publisher removed at the server), both fail, the parent recovers while the repository still fails, - with
+    // --readd 1 - the repository recovers from "only repository" and from "both" (then only the parent fails).
+    {
+        let x = if id % 2 == 0 { &b } else { &c };
+        let mut steps: Vec<&str> = vec!["child_remove", "sync", "repo", "child_readd", "sync", "sync", "pub_remove", "repo", "sync"];
+        if readd { steps.extend(["pub_readd", "repo", "pub_remove", "repo"]); }
+        steps.extend(["child_remove", "sync", "child_readd", "sync", "sync", "child_remove", "sync"]);
+        if readd { steps.extend(["pub_readd", "repo", "sync"]); }
+        steps.extend(["child_readd", "sync", "sync", "repo"]);
+        for k in steps { script.push_back((k.to_string(), x.clone())); }
+    }
     if id % 4 == 1 { script.push_back(("undercut".into(), a.clone())); undercut_follow(&mut script); }
     let mut done = 0;
     let mut n_inactive = 0;
@@ -781,7 +841,7 @@ fn main() {
     let header = "From Coq Require Import String.\nFrom KV Require Import base.Tac status.Status status.StatusCheck.\nOpen Scope N_scope.";
     let footer = "Eval vm_compute in (failing agrees base_index cases).\nEval vm_compute in (failing c19_ok base_index cases).";
     let out = Mutex::new(Out { w: CaseWriter::new(&args.out, header, "list case", footer, 80), jsonl: std::fs::File::create(args.out.join("cases.jsonl")).unwrap(),
-        op_hist: BTreeMap::new(), res_hist: BTreeMap::new(), run_hist: BTreeMap::new(), distinct: BTreeSet::new(), samples: vec![], impl_failures: vec![], nontrivial: 0 });
+        op_hist: BTreeMap::new(), res_hist: BTreeMap::new(), run_hist: BTreeMap::new(), issue_hist: BTreeMap::new(), distinct: BTreeSet::new(), samples: vec![], impl_failures: vec![], nontrivial: 0 });
     std::panic::set_hook(Box::new(|_| {}));
     let mut rng = Rng::new(args.seed);
     let seeds: Vec<u64> = (0..n_hist).map(|_| rng.next()).collect();
@@ -807,8 +867,8 @@ fn main() {
     write_json(&args.out.join("stats.json"), &json!({
         "scenario": "c19", "seed": args.seed, "tier": args.tier, "histories": n_hist, "ops_per_history": n_ops, "slash_handles": slash, "publisher_readd": readd,
         "evaluations": o.w.total, "distinct_nontrivial": o.distinct.len(), "nontrivial": o.nontrivial,
-        "rule": "random histories (after a scripted set-up) of parent syncs, repository syncs, child removed at the parent while it keeps syncing, child re-added, child suspended and calling in, key roll init/activate, entitlement changes, ROA changes, forced republication, parent removed by the child, CA deleted and re-created under the same handle, publisher removed at the server (re-added only with --readd 1), restarts (fresh runtime on the same disk directory) on a TA->a->{b,c} hierarchy whose handles contain '-' and '_' (and '/' with --slash 1) and whose parent/child handles differ from the CA handles; one case per step: status (get_ca_status of every CA + files of the status namespace) before, operations with exchange outcomes observed from the call result / parent CA / publication server / parent command log, status after, call result, server files per publisher, get_ca_issues; non-trivial = the step performs at least one status operation; distinct = distinct (operations, post-state)",
-        "op_distribution": o.op_hist, "result_distribution": o.res_hist,
+        "rule": "random histories (after a scripted set-up) of parent syncs, repository syncs, child removed at the parent while it keeps syncing, child re-added, child suspended and calling in, key roll init/activate, entitlement changes, ROA changes, forced republication, parent removed by the child, CA deleted and re-created under the same handle, publisher removed at the server (re-added only with --readd 1), restarts (fresh runtime on the same disk directory) on a TA->a->{b,c} hierarchy whose handles contain '-' and '_' (and '/' with --slash 1) and whose parent/child handles differ from the CA handles; one case per step: status (get_ca_status of every CA + files of the status namespace) before, operations with exchange outcomes observed from the call result / parent CA / publication server / parent command log, status after, call result, server files per publisher, get_ca_issues of every CA, the issues view over all CAs (built as bulk.rs builds it) and the two text reports; after the set-up every history walks one leaf CA through only-parent / none / only-repository / both failing and back; non-trivial = the step performs at least one status operation; distinct = distinct (operations, post-state)",
+        "op_distribution": o.op_hist, "result_distribution": o.res_hist, "issue_state_distribution": o.issue_hist,
         "samples": o.samples, "impl_failures": o.impl_failures,
     }));
     let _ = &o.run_hist;
